@@ -48,6 +48,29 @@ Theorem C25_closed_handle_inert : forall st o h, through o = Some h -> handle st
   raw (fst (step st o)) = raw st /\ (snd (step st o) = RErr \/ o = OClose h).
 Proof. exact closed_inert. Qed.
 
+(* a writer made by BatchFunc writes under the prefix captured when it was made (the handle's prefix at that
+   moment; none if the handle was closed: then add and done fail and change nothing).  Whatever happens to the
+   handles afterwards (Close) and however often its batch is renewed, add / done leave every key outside the
+   captured prefix unchanged, and the captured prefix never changes along a history. *)
+Theorem C25_writer_isolation : forall st o w p, writer_of o = Some w ->
+  w_prefix (nth w (writers st) dead_writer) = Some p ->
+  filter (fun kv => negb (is_prefix p (fst kv))) (raw (fst (step st o))) =
+  filter (fun kv => negb (is_prefix p (fst kv))) (raw st).
+Proof. exact writer_outside_unchanged. Qed.
+
+Theorem C25_writer_prefix_stable : forall st o w h size,
+  (w < List.length (writers st))%nat ->
+  w_prefix (nth w (writers (fst (step st o))) dead_writer) = w_prefix (nth w (writers st) dead_writer) /\
+  w_prefix (nth (List.length (writers st)) (writers (fst (step st (OWOpen h size)))) dead_writer) = handle st h.
+Proof.
+  intros. split. apply writer_prefix_stable; auto.
+  unfold step. simpl. rewrite app_nth2; auto. rewrite PeanoNat.Nat.sub_diag. auto.
+Qed.
+
+Theorem C25_writer_closed_inert : forall st o w, writer_of o = Some w ->
+  w_prefix (nth w (writers st) dead_writer) = None -> step st o = (st, RErr).
+Proof. intros st o w T H. destruct o; simpl in T; inversion T; subst; unfold step; simpl; rewrite H; auto. Qed.
+
 (* Iter visits exactly the entries under p whose key, with p cut off, lies in the caller's range; in storage
    order (ascending) or reversed, up to the callback's stop; the keys handed out have p cut off *)
 Theorem C25_iter_exact : forall st h p r nr asc stop, good st -> handle st h = Some p ->
@@ -85,7 +108,7 @@ Theorem C25_batch_remove_exact : forall st r limit, good st ->
   let rr := match r with Some r => r | None => mkRange None None end in
   step st (ORawBatchRemove r limit) =
     if Z.eqb limit 0 then (st, RNum 0)
-    else (mkState (filter (fun kv => negb (in_range rr (fst kv))) (raw st)) (handles st),
+    else (mkState (filter (fun kv => negb (in_range rr (fst kv))) (raw st)) (handles st) (writers st),
           RNum (Z.of_nat (List.length (filter (fun kv => in_range rr (fst kv)) (raw st))))).
 Proof.
   intros st r limit [W [S _]] rr. unfold step. fold rr.
@@ -107,3 +130,12 @@ Example C25_example_history :
   raw (fst (step st (ORemove 0))) = [([97; 99], "01"); ([255; 255; 255], "04")]%N /\
   snd (step st (ORawBatchRemove (Some (mkRange (Some [97]%N) (Some [98]%N))) 2)) = RNum 3.
 Proof. vm_compute. repeat split. Qed.
+
+(* a writer opened through "ab" (batch size 2), the handle closed, then four more adds (two roll-overs) and done:
+   everything lands under "ab" *)
+Example C25_example_writer_after_close :
+  raw (run (init [[97; 98]; [97]]%N)
+        [OWOpen 0 2; OWAdd 0 (BPut [1]%N "01"); OClose 0; OWAdd 0 (BPut [2]%N "02"); OWAdd 0 (BPut [3]%N "03");
+         OWAdd 0 (BPut [4]%N "04"); OWAdd 0 (BPut [5]%N "05"); OWDone 0; OPut 0 [9]%N "09"])
+  = [([97; 98; 1], "01"); ([97; 98; 2], "02"); ([97; 98; 3], "03"); ([97; 98; 4], "04"); ([97; 98; 5], "05")]%N.
+Proof. vm_compute. reflexivity. Qed.
